@@ -22,8 +22,8 @@ DRIVER = 'Driver/C03.lean'
 REQUIRED_THEOREMS = ['CfVerif.C03.' + t for t in (
     'log_element_decoded', 'param_element_decoded', 'fetched_eq_device', 'log_fetched_eq_device', 'param_fetched_eq_device',
     'stale_info_ignored', 'stale_item_ignored', 'fetch_completes', 'toc_eq_device_table', 'lookup_agree', 'complete_name_arity',
-    'persistent_marks_eq_device', 'no_extended_no_queries', 'setup_started_once', 'setup_started_once_live_counterexample',
-    'gen_platform_reports_once', 'gen_type_tables')]
+    'persistent_marks_eq_device', 'ext_phase_completes', 'param_table_when_connected', 'no_extended_no_queries',
+    'setup_started_once', 'setup_started_once_live_counterexample', 'gen_platform_reports_once', 'gen_type_tables')]
 TRUSTED = ['harness/corr/c03.py extractor + correspondence', 'harness/sim/crazyflie_device.py (simulated device, link, sync session) and its Lean twin Spec/C03',
            "Python str.decode('ISO-8859-1') is a bijection bytes <-> code points < 256 (names are compared as byte strings)",
            'dict keeps insertion order and overwrites in place; struct.unpack as modelled in Base/Struct']
@@ -550,7 +550,7 @@ def decoder_cases(ctx):
         for t in range(256):       # every type byte with a well-formed and a random naming part
             g, n = gen_name(rng, rng.randrange(0, 6)), gen_name(rng, rng.randrange(0, 8))
             cases.append((kind, rng.randrange(0, 70000), bytes([t]) + g + b'\0' + n + b'\0', 'wf'))
-        shapes = 400 if ctx.tier == 'quick' else 4000
+        shapes = 400 if ctx.tier == 'quick' else 30000
         for _ in range(shapes):
             t = rng.choice(LOG_CODES if kind == 'dlog' else PARAM_CODES + [0x18, 0x48, 0x58, 0x46]) if rng.random() < 0.8 else rng.randrange(256)
             shape = rng.choice(['wf', 'nonul', 'onenul', 'manynul', 'empty', 'typeonly', 'garbage', 'rich', 'long'])
@@ -760,7 +760,7 @@ def correspond(ctx):
     sc = Script()
     sessions = []
     sizes = list(SIZES_QUICK)
-    nrand = 6 if ctx.tier == 'quick' else 40
+    nrand = 6 if ctx.tier == 'quick' else 150
     plan = []
     for kind in ('log', 'param'):
         for v2 in (True, False):
@@ -811,7 +811,7 @@ def platform_cases(ctx):
     guarded = _reports_once(X.find(X.parse('cflib/crazyflie/platformservice.py'), 'PlatformService'))
     magic = b'Bitcraze Crazyflie'
     lines, reals = [], []
-    for trial in range(60 if ctx.tier == 'quick' else 600):
+    for trial in range(60 if ctx.tier == 'quick' else 3000):
         cf = StubCF(0)
         ps = PlatformService(cf)
         started = [0]
@@ -921,7 +921,7 @@ def connection_plan(ctx):
     for v2 in (True, False):
         for (nl, npar) in big:
             plan.append((v2, nl, npar, rng.choice(POLICIES), True))
-        for _ in range(10 if ctx.tier == 'quick' else 60):
+        for _ in range(10 if ctx.tier == 'quick' else 250):
             pol = rng.choice(POLICIES)
             plan.append((v2, rng.randrange(0, 30), rng.randrange(0, 30), pol, True if 'drop' in pol else rng.random() < 0.5))
     v2big = [(256, 257), (257, 256), (258, 300), (300, 258)] if ctx.tier == 'quick' else [(256, 256), (257, 257), (258, 258), (300, 300), (700, 1000)]
@@ -1039,26 +1039,68 @@ def property_holds(s, dev):
     return None
 
 
+def run_trial(t):
+    """one self-contained search trial (also the replay entry point).  t: {'v2','nlog','nparam','needs_resending','mode',
+    'seed', optional 'rules': [[action, n, port, chan], ...], 'rich'} -> None | (key, what, detail)"""
+    from harness.sim import crazyflie_device as sim
+    import random
+    rr = random.Random(t['seed'])
+    dev = make_dev(rr, t['nlog'], t['nparam'], t['v2'], rich=t.get('rich', False))
+    mode = t.get('mode', 'rules')
+    if mode == 'all-ports':
+        pol = sim.RandomPolicy(random.Random(t['seed'] + 1), p_dup=0.25, p_delay=0.2, p_drop=0.0, p_stale=0.3)
+    elif mode == 'toc-ports-drop':
+        pol = sim.RandomPolicy(random.Random(t['seed'] + 1), p_dup=0.2, p_delay=0.15, p_drop=0.1, p_stale=0.25, ports=[2, 5])
+    else:
+        pol = sim.ReplyPolicy([sim.Rule(a, n, port=po, chan=ch) for (a, n, po, ch) in t.get('rules', [])])
+    s = sim.SyncSession(dev, needs_resending=t['needs_resending'], policy=pol)
+    ok = s.connect('connected', max_steps=200000 + 40 * (t['nlog'] + t['nparam']))
+    bad = property_holds(s, dev) if ok else ('no-connect', 'connected never signalled', {'events': s.events})
+    if bad:
+        nver = len([1 for (p, c, d) in s.link.delivered if (p, c) == (13, 1) and d[:1] == b'\x00']) + \
+            len([1 for (p, c, d) in s.link.delivered if (p, c) == (15, 1) and not d.startswith(b'Bitcraze Crazyflie')])
+        repaired = _reports_once(X.find(X.parse('cflib/crazyflie/platformservice.py'), 'PlatformService'))
+        key = 'setup-restarted-by-duplicate-platform-reply' if nver > 1 and not repaired else bad[0]
+        bad = (key, bad[1], dict(bad[2], first_log_entries=[(v.group, v.name, v.ctype) for v in dev.log_toc[:5]],
+                                 first_param_entries=[(v.group, v.name, v.ctype, v.type_byte) for v in dev.param_toc[:5]]))
+    s.close()
+    return bad
+
+
+def corpus_trials():
+    import glob
+    import json
+    import os
+    out = []
+    for f in sorted(glob.glob(os.path.join(os.path.dirname(os.path.dirname(os.path.abspath(__file__))), 'corpus', 'c03', '*.json'))):
+        for t in json.load(open(f)):
+            out.append((os.path.basename(f), t))
+    return out
+
+
+def replay(ctx, rp):
+    """./check C03 --replay <file>: re-run the recorded witness on the current tree; True = it STILL FAILS"""
+    t = (rp.get('witness') or {}).get('input')
+    if not isinstance(t, dict) or 'seed' not in t:
+        print('replay file has no self-contained trial (broken obligations only): run ./check C03')
+        return bool(rp.get('broken'))
+    bad = run_trial(t)
+    print('trial:', t)
+    print('result:', 'property holds' if bad is None else bad)
+    return bad is not None
+
+
 def search(ctx):
     from harness.sim import crazyflie_device as sim
     import random
     rng = ctx.rng
-    R = sim.Rule
-    repaired = _reports_once(X.find(X.parse('cflib/crazyflie/platformservice.py'), 'PlatformService'))
-    # (1) corpus / fixed witnesses first: a duplicated protocol-version reply, a duplicated link-source reply
-    fixed = [('dup-version-reply', [R('dup', 2, port=13, chan=1)]), ('dup-link-source-reply', [R('dup', 2, port=15, chan=1)])]
-    for name, rules in fixed:
-        for v2 in (True, False):
-            rr = random.Random(7)
-            dev = make_dev(rr, 3, 2, v2)
-            s = sim.SyncSession(dev, needs_resending=False, policy=sim.ReplyPolicy(rules))
-            ok = s.connect('connected', max_steps=20000)
-            bad = property_holds(s, dev) if ok else ('no-connect', 'connected never signalled', {'events': s.events})
-            ctx.count('search:fixed')
-            if bad:
-                ctx.witness('setup-restarted-by-duplicate-platform-reply', bad[1] + ' after a duplicated protocol-version / link-source reply',
-                            {'policy': name, 'v2': v2, 'nlog': 3, 'nparam': 2, 'seed': 7}, detail=bad[2], key_detail=bad[0])
-            s.close()
+    # (1) corpus first: past witnesses (D31: duplicated protocol-version / link-source reply; seeded M1: duplicated
+    #     item replies in the legacy generation)
+    for name, t in corpus_trials():
+        bad = run_trial(t)
+        ctx.count('search:corpus')
+        if bad:
+            ctx.witness(bad[0], bad[1] + ' [corpus %s]' % name, t, detail=bad[2])
     # (1b) cache-present sanity path (cache semantics proper are C11): a table cached by an earlier connection is
     # reused only for the same CRC; a foreign table whose file name merely ends with the same hex digits is not
     import os
@@ -1092,30 +1134,14 @@ def search(ctx):
     # (2) generated tables x adversarial networks on every port (no loss on the ports that have no retry)
     sizes = [(0, 0), (1, 0), (0, 1), (2, 2), (255, 3), (3, 255), (256, 2), (2, 256), (257, 257), (258, 1), (300, 300)]
     trials = [(v2, nl, npar) for v2 in (True, False) for (nl, npar) in sizes if v2 or max(nl, npar) <= 255]
-    trials += [(rng.random() < 0.5, rng.randrange(0, 40), rng.randrange(0, 40)) for _ in range(60 if ctx.tier == 'quick' else 600)]
+    trials += [(rng.random() < 0.5, rng.randrange(0, 40), rng.randrange(0, 40)) for _ in range(60 if ctx.tier == 'quick' else 2500)]
     # the high index byte: tables beyond 4096 entries (quick) and the largest addressable tables (thorough)
     trials += [(True, 4099, 1), (True, 1, 4100)] if ctx.tier == 'quick' else [(True, 65535, 2), (True, 2, 65535), (True, 4099, 4100)]
     for (v2, nl, npar) in trials:
-        dev = make_dev(rng, nl, npar, v2, rich=rng.random() < 0.4)
-        nr = rng.random() < 0.6
-        seed = rng.getrandbits(32)
         mode = rng.choice(['all-ports', 'all-ports', 'toc-ports-drop']) if max(nl, npar) < 1000 else 'all-ports'
-        if mode == 'all-ports':
-            pol = sim.RandomPolicy(random.Random(seed), p_dup=0.25, p_delay=0.2, p_drop=0.0, p_stale=0.3)
-        else:
-            nr = True
-            pol = sim.RandomPolicy(random.Random(seed), p_dup=0.2, p_delay=0.15, p_drop=0.1, p_stale=0.25, ports=[2, 5])
-        s = sim.SyncSession(dev, needs_resending=nr, policy=pol)
-        ok = s.connect('connected', max_steps=200000 + 40 * (nl + npar))
+        t = {'v2': v2, 'nlog': nl, 'nparam': npar, 'needs_resending': True if mode == 'toc-ports-drop' else rng.random() < 0.6,
+             'mode': mode, 'seed': rng.getrandbits(32), 'rich': rng.random() < 0.4}
         ctx.count('search:' + mode)
-        bad = property_holds(s, dev) if ok else ('no-connect', 'connected never signalled', {'events': s.events})
+        bad = run_trial(t)
         if bad:
-            # classify: was the setup sequence restarted by a further copy of a platform reply?
-            nver = len([1 for (p, c, d) in s.link.delivered if (p, c) == (13, 1) and d[:1] == b'\x00']) + \
-                len([1 for (p, c, d) in s.link.delivered if (p, c) == (15, 1) and not d.startswith(b'Bitcraze Crazyflie')])
-            key = 'setup-restarted-by-duplicate-platform-reply' if nver > 1 and not repaired else bad[0]
-            ctx.witness(key, bad[1], {'v2': v2, 'nlog': nl, 'nparam': npar, 'needs_resending': nr, 'mode': mode, 'policy_seed': seed,
-                                      'log_names': [(v.group, v.name, v.ctype) for v in dev.log_toc[:20]],
-                                      'param_names': [(v.group, v.name, v.ctype, v.type_byte) for v in dev.param_toc[:20]]},
-                        detail=bad[2], key_detail=bad[0])
-        s.close()
+            ctx.witness(bad[0], bad[1], t, detail=bad[2])
